@@ -381,6 +381,31 @@ func checkDeployed(sim *simchain.Sim, n int) {
 	if cnt != 8+n {
 		fail("C13: %d contracts are deployed, expected %d (8 system contracts + %d Alphabet contracts)", cnt, 8+n, n)
 	}
+	// the committee's NEO went to the Alphabet contracts in shares that differ by at most one
+	var minNEO, maxNEO, sumNEO int64
+	minNEO = -1
+	for hsh, domain := range seen {
+		if !strings.HasPrefix(domain, "alphabet") {
+			continue
+		}
+		b := sim.BC.GetUtilityTokenBalance(hsh)
+		_ = b
+		neo, _ := sim.BC.GetGoverningTokenBalance(hsh)
+		v := neo.Int64()
+		sumNEO += v
+		if minNEO < 0 || v < minNEO {
+			minNEO = v
+		}
+		if v > maxNEO {
+			maxNEO = v
+		}
+	}
+	if maxNEO-minNEO > 1 {
+		fail("C13: the NEO shares of the Alphabet contracts differ by %d (min %d, max %d)", maxNEO-minNEO, minNEO, maxNEO)
+	}
+	if sumNEO != 100_000_000 {
+		fail("C13: the Alphabet contracts hold %d NEO together, the committee account received 100000000", sumNEO)
+	}
 }
 
 // nnsTXT reads the first TXT record of a domain ("" when the NNS, the domain or the record is missing).
@@ -488,7 +513,7 @@ func runSchedule(s schedule, h *ev.History, col *ev.Collector) {
 func TestC13Deploy(t *testing.T) {
 	theT = t
 	col := ev.New("C13", "deploy",
-		"end-to-end: deploy.Deploy is run by every member of an n-key committee (n from VERIF_C13_N, default 1..4) against an in-process implementation of deploy.Blockchain on a real neo-go core.Blockchain with the Notary service, with the freshly compiled executables; generated schedules: per-member start block (shape late: up to a minority, possibly the leader, 60..500 blocks after the others), a minority of non-leading members absent until the Notary role is on chain, one member interrupted at a generated block and restarted 1..200 blocks later, two or three interruptions of arbitrary members (multi-cancel), churn and expiry-churn around the Notary bootstrap; blocks are produced by the harness when the members are quiescent; oracle: every run returns nil within a block budget (one retry with slower pacing before a violation), Notary and NeoFSAlphabet roles = committee, contract 1 is the supplied NNS, every system name of the neofs zone resolves to exactly one distinct contract carrying the supplied executable, 8+n contracts, and a second run of all members changes neither the contract set/update counters nor the NNS storage nor the designations; non-trivial = n>=2 with non-simultaneous start, absence or interruption",
+		"end-to-end: deploy.Deploy is run by every member of an n-key committee (n from VERIF_C13_N, default 1..4) against an in-process implementation of deploy.Blockchain on a real neo-go core.Blockchain with the Notary service, with the freshly compiled executables; generated schedules: per-member start block (shape late: up to a minority, possibly the leader, 60..500 blocks after the others), a minority of non-leading members absent until the Notary role is on chain, one member interrupted at a generated block and restarted 1..200 blocks later, two or three interruptions of arbitrary members (multi-cancel), churn and expiry-churn around the Notary bootstrap; blocks are produced by the harness when the members are quiescent; oracle: every run returns nil within a block budget (one retry with slower pacing before a violation), Notary and NeoFSAlphabet roles = committee, contract 1 is the supplied NNS, every system name of the neofs zone resolves to exactly one distinct contract carrying the supplied executable, 8+n contracts, the Alphabet contracts hold the whole NEO supply in shares differing by at most one, and a second run of all members changes neither the contract set/update counters nor the NNS storage nor the designations; non-trivial = n>=2 with non-simultaneous start, absence or interruption",
 		"the harness owns block production, start, interruption and absence - not the goroutine interleaving inside Deploy", "termination is decided as 'finishes within a budget of blocks'")
 	nsEnv := os.Getenv("VERIF_C13_N")
 	ns := []int{1, 2, 3, 4}
